@@ -274,10 +274,57 @@ func extractC12() *lean {
 		})
 	}
 	l.def("resolveRejectsDuplicateIds", "Bool", dupCheck, dupCheck)
+	// ---- apply: the "take max" loop (the range loop whose body mentions *submissionRequirement.Max): is the
+	// `index == *Max` test the first statement of the body (before a member is taken) or the last (after)?
+	// and is there a `*Max < *Min` rejection?
+	maxFirst := ".unknown_apply_has_no_max_loop"
+	minMax := "false"
+	if fd := funcDecl(srf, "apply"); fd != nil {
+		ast.Inspect(fd, func(n ast.Node) bool {
+			if is, ok := n.(*ast.IfStmt); ok {
+				c := exprString(is.Cond)
+				if strings.Contains(c, "*submissionRequirement.Max < *submissionRequirement.Min") && len(is.Body.List) > 0 {
+					if _, ok := is.Body.List[len(is.Body.List)-1].(*ast.ReturnStmt); ok {
+						minMax = "true"
+					}
+				}
+			}
+			rs, ok := n.(*ast.RangeStmt)
+			if !ok || len(rs.Body.List) == 0 {
+				return true
+			}
+			isMaxTest := func(st ast.Stmt) bool {
+				is, ok := st.(*ast.IfStmt)
+				if !ok || !strings.Contains(exprString(is.Cond), "== *submissionRequirement.Max") || len(is.Body.List) == 0 {
+					return false
+				}
+				br, ok := is.Body.List[len(is.Body.List)-1].(*ast.BranchStmt)
+				return ok && br.Tok == token.BREAK
+			}
+			any := false
+			for _, st := range rs.Body.List {
+				any = any || isMaxTest(st)
+			}
+			if !any {
+				return true
+			}
+			switch {
+			case len(rs.Body.List) == 2 && isMaxTest(rs.Body.List[0]) && !isMaxTest(rs.Body.List[1]):
+				maxFirst = "true"
+			case len(rs.Body.List) == 2 && isMaxTest(rs.Body.List[1]) && !isMaxTest(rs.Body.List[0]):
+				maxFirst = "false"
+			default:
+				maxFirst = ".unknown_max_loop_shape"
+			}
+			return true
+		})
+	}
+	l.def("applyMaxTestBeforeTake", "Bool", maxFirst, maxFirst)
+	l.def("applyRejectsMinAboveMax", "Bool", minMax, minMax)
 	l.def("matchFilterArrayGuard", "Bool", arrayGuard, arrayGuard)
 	l.def("matchFilterAssertsString", "Bool", fmt.Sprint(patternAsserts), patternAsserts)
 	l.def("applyMaxGuarded", "Bool", maxGuarded, maxGuarded)
-	l.sb.WriteString("def cfg : Cfg := { arrayGuard := matchFilterArrayGuard, maxNilCheck := applyMaxGuarded, dupCheck := resolveRejectsDuplicateIds }\n")
+	l.sb.WriteString("def cfg : Cfg := { arrayGuard := matchFilterArrayGuard, maxNilCheck := applyMaxGuarded, dupCheck := resolveRejectsDuplicateIds, maxCheckFirst := applyMaxTestBeforeTake, minMaxCheck := applyRejectsMinAboveMax }\n")
 
 	// ---- JSON schema of a submission requirement: rule names and lower bounds of count/min/max (both oneOf branches)
 	b, err := os.ReadFile(filepath.Join(repo, "vcr/pe/schema/v2/submission-requirement.json"))
